@@ -104,7 +104,7 @@ def _search_after_break(report, sc, ybin, tables):
                      "no-failing-input-found")
 
 
-def _pkg(sc, name, fields, computed, cpp=False):
+def _pkg(sc, name, fields, computed, cpp=False, aliases=()):
     d = sc.path(name, "m")
     os.makedirs(d, exist_ok=True)
     man = [f"namespace: Cf", "python:", "  outputDir: ../py", "matlab:", "  outputDir: ../matlab"]
@@ -112,7 +112,7 @@ def _pkg(sc, name, fields, computed, cpp=False):
         man += ["cpp:", "  sourcesOutputDir: ../cpp", "  generateCMakeLists: false", "  generateHDF5: false", "  generateNDJson: false",
                 "  overrideArrayHeader: vf_ndarray.h"]
     open(os.path.join(d, "_package.yml"), "w").write("\n".join(man) + "\n")
-    lines = ["R: !record", "  fields:"]
+    lines = [f"{a}: {t}" for a, t in aliases] + ["R: !record", "  fields:"]
     for n, t in fields:
         lines.append(f"    {n}: {t}")
     lines.append("  computedFields:")
@@ -158,6 +158,7 @@ def _typing(report, sc, ybin, tab, rng, quick, seed):
         if got != PY_TYPE[c]:
             report.violation(f"typing:static-type-differs:{op}", {"expr": computed[n], "operand_types": [a, b], "model": c, "yardl_python_annotation": got},
                              "static type of a computed field differs from the model over the regenerated tables")
+    _typing_aliased(report, sc, ybin, valid)
     invalid = [k for k, v in tab.items() if v is None]
     rng.shuffle(invalid)
     for (op, a, b) in invalid[: (12 if quick else 150)]:
@@ -168,6 +169,44 @@ def _typing(report, sc, ybin, tab, rng, quick, seed):
         if rc == 0:
             report.violation(f"typing:ill-typed-accepted:{op}", {"expr": f"p_{a} {OPS[op]} p_{b}", "operand_types": [a, b]},
                              "an arithmetic expression with no common type is accepted")
+
+
+def _typing_aliased(report, sc, ybin, valid):
+    """the same table with every operand declared through a named type (alias, and alias of the alias): the static type of
+    `x op y` depends on the primitives the operands resolve to, not on how they are named, and not on whether both operands
+    are the same field"""
+    alias = lambda p: "A" + p.capitalize()
+    aliases = [(alias(p), p) for p in NUMERIC] + [("B" + p.capitalize(), alias(p)) for p in NUMERIC]
+    fields = [(_fld(p), alias(p)) for p in NUMERIC] + [("q" + p.capitalize(), alias(p)) for p in NUMERIC] + [("r" + p.capitalize(), "B" + p.capitalize()) for p in NUMERIC]
+    computed, keymap = {}, {}
+    i = 0
+    for (op, a, b), c in sorted(valid.items()):
+        forms = [f"{_fld(a)} {OPS[op]} {_fld(b)}", f"{_fld(a)} {OPS[op]} r{b.capitalize()}"]
+        if a == b:
+            forms.append(f"{_fld(a)} {OPS[op]} q{b.capitalize()}")
+        for e in forms:
+            n = f"d{i}"
+            i += 1
+            computed[n] = e
+            keymap[n] = (op, a, b, c)
+    d = _pkg(sc, "typing_aliased", fields, computed, aliases=aliases)
+    rc, out, err = vlib.yardl(ybin, d, "generate")
+    if rc != 0:
+        report.violation("typing:valid-combination-rejected:aliased", {"error": err[-800:], "n_fields": len(computed)}, "yardl rejects a combination the model types")
+        return
+    text = open(os.path.join(os.path.dirname(d), "py", "cf", "types.py")).read()
+    back = {PY_TYPE[p]: PY_TYPE[p] for p in NUMERIC}
+    for a, p in aliases:
+        back[a] = PY_TYPE[p if p in PY_TYPE else p[1:].lower()]
+    types = {m.group(1): m.group(2) for m in re.finditer(r"def (\w+)\(self\) -> (?:yardl\.)?(\w+):", text)}
+    for n, (op, a, b, c) in keymap.items():
+        got = types.get(vlib.to_snake(n), types.get(n))
+        report.case(distinct_key=("type-aliased", computed[n]))
+        report.count("typing.valid-aliased")
+        if back.get(got) != PY_TYPE[c]:
+            report.violation(f"typing:static-type-differs:{op}:aliased-operands", {"expr": computed[n], "operand_types": [a, b], "model": c, "yardl_python_annotation": got,
+                                                                                 "declared_through": "aliases A<P>: <p>, B<P>: A<P>"},
+                             "static type of a computed field over aliased operands differs from the model over the regenerated tables")
 
 
 # ----------------------------------------------------------------------------- emission
